@@ -317,6 +317,9 @@ impl Lane for C12 {
             st.bump(&format!("truth/{k}={b}"));
         }
         let n = d.order();
+        if n >= 2 {
+            st.case(&[vmodel::rng::digest(serde_json::to_string(&sc.body).unwrap().as_bytes())]);
+        }
         if n >= 2 && d.size() >= n * (n - 1) / 2 && !exp.semicomplete {
             st.bump("probe/size_shortcut_passes_but_not_semicomplete");
         }
